@@ -129,8 +129,7 @@ def decOp (j : Json) : Except String Op := do
   | _ => throw s!"bad op {o}"
 
 def decMode (j : Json) : Except String Mode := do
-  return { litKeyTyped := ← fieldBool j "lit_key_typed", litDedupTyped := ← fieldBool j "lit_dedup_typed",
-           unionTotal := ← fieldBool j "union_total" }
+  return { litKeyTyped := ← fieldBool j "lit_key_typed", unionTotal := ← fieldBool j "union_total" }
 
 def decParams (j : Json) : Except String Params := do
   return { mode := ← decMode (← field j "mode"), cap := ← fieldNat j "cap", fuel := ← fieldNat j "fuel" }
